@@ -16,7 +16,10 @@ def run(tier, replay=None):
     tr, failed = DC.observe(c, decls, True, 6 if tier == "thorough" else 4)
     if failed:
         src, g, diags = failed[0]
-        raise vlib.ToolError("a generated derive+Encode program does not compile: %s\n%s" % (src, "\n".join(x["rendered"] for x in diags[:2])))
+        # a declaration of the supported grammar whose derived TypeInfo (or its interplay with the derived Encode) does
+        # not compile: no decoder can be driven by it (every program of this grammar compiles where the property holds)
+        rp = c.replay_file("derive_program_does_not_compile.rs", open(src).read())
+        c.violation("derive-emits-invalid", "a program deriving TypeInfo and Encode for declarations of the supported grammar does not compile: %s" % ((diags[0]["message"] or "")[:300] if diags else "?"), rp)
     DC.validate_all(c, "C03", tr)
     c.cov["exhaustive"] = False
     c.cov["rule"] = "declarations as for C09 (TLC-enumerated feature plans: every set of <=%d features, incl. encoded_as + seeded random declarations), each deriving TypeInfo and Encode; per type several random values with a value tree computed by an oracle generated from the DECLARATION; TLC decodes the real bytes using only the real PortableRegistry (ScaleValue.Dec) and requires exact consumption, same variant (first byte = metadata index), field names, order and leaves; reported indices follow codec(index) > discriminant > position among non-skipped" % (4 if tier == "thorough" else 2)
